@@ -123,7 +123,7 @@ Proof.
   - eexists. split; [reflexivity|]. apply wait_kern_step; [assumption|]. apply kstable_user_fd. unfold ok_idx in W. lia.
   - destruct (rw_reg s j); [|exists s; split; [reflexivity|assumption]].
     eexists. split; [reflexivity|]. unfold raw_post. sp.
-    destruct (efd_raw s =? 0).
+    destruct (raw_is_pipe _ j).
     + pose proof (kstable_write (kern s) (rw_wfd s j) 1 0) as KS.
       destruct (k_write (kern s) (rw_wfd s j) 1 0) as [k1 r]. apply wait_kern_step; assumption.
     + pose proof (kstable_write (kern s) (rw_wfd s j) 8 1) as KS.
@@ -447,9 +447,7 @@ Proof.
   - intros k. apply sync_at_same with (s := s); try reflexivity. apply B.
   - assert (FL : flt k' = flt (kern s)) by (destruct KC as (_&_&_&_&Q); exact Q).
     destruct C. constructor; sp; try assumption.
-    + intros j J. specialize (dy_kern j J). destruct (efd_raw s =? 0); [eapply pipe_ok_kctl|eapply evfd_ok_kctl]; eassumption.
-    + rewrite FL. assumption.
-    + rewrite FL. assumption.
+    + intros j J. specialize (dy_kern j J). dyk; [eapply pipe_ok_kctl|eapply evfd_ok_kctl]; eassumption.
     + intros J. destruct (dy_act J) as (X & (v0 & Y1 & Y2) & W). split; [assumption|]. split.
       * exists v0. rewrite (kctl_open _ _ _ KC). tauto.
       * destruct W as [W|W]; [left; assumption|right; eapply pipe_ok_kctl; eassumption].
